@@ -133,7 +133,9 @@ def main():
         obligations.append({"name": "correspondence[%s/%s] %d ops" % (cfg, st.get("name", "ops"), res["n"]), "kind": "correspondence", "ok": nfail == 0, "detail": "%d disagreements" % nfail})
 
     # 5. decide
-    undischarged = [o for o in obligations if o["ok"] is False and o["kind"] in ("theorem", "translation", "audit")]
+    # a harness (or judge) that does not build is an undischarged correspondence obligation: nothing was compared
+    undischarged = [o for o in obligations if o["ok"] is False and (o["kind"] in ("theorem", "translation", "audit")
+                    or o["name"].startswith(("harness builds", "judge executable builds")))]
     have_input = any(v[1] for v in violations)
     if undischarged and not have_input:
         note = "obligations that no longer check:\n" + "\n".join("%s :: %s" % (o["name"], o["detail"][:400].replace("\n", " | ")) for o in undischarged[:30])
